@@ -113,7 +113,7 @@ func NewClient[Req, Res any](httpClient HTTPClient, url string, options ...Clien
 // CallUnary calls a request-response procedure.
 func (c *Client[Req, Res]) CallUnary(ctx context.Context, request *Request[Req]) (*Response[Res], error) {
 	if c.err != nil {
-		return nil, c.err
+		return nil, c.constructionError()
 	}
 	return c.callUnary(ctx, request)
 }
@@ -121,7 +121,7 @@ func (c *Client[Req, Res]) CallUnary(ctx context.Context, request *Request[Req])
 // CallClientStream calls a client streaming procedure.
 func (c *Client[Req, Res]) CallClientStream(ctx context.Context) *ClientStreamForClient[Req, Res] {
 	if c.err != nil {
-		return &ClientStreamForClient[Req, Res]{err: c.err}
+		return &ClientStreamForClient[Req, Res]{err: c.constructionError()}
 	}
 	return &ClientStreamForClient[Req, Res]{conn: c.newConn(ctx, StreamTypeClient)}
 }
@@ -129,7 +129,7 @@ func (c *Client[Req, Res]) CallClientStream(ctx context.Context) *ClientStreamFo
 // CallServerStream calls a server streaming procedure.
 func (c *Client[Req, Res]) CallServerStream(ctx context.Context, request *Request[Req]) (*ServerStreamForClient[Res], error) {
 	if c.err != nil {
-		return nil, c.err
+		return nil, c.constructionError()
 	}
 	conn := c.newConn(ctx, StreamTypeServer)
 	mergeHeaders(conn.RequestHeader(), request.header)
@@ -151,9 +151,19 @@ func (c *Client[Req, Res]) CallServerStream(ctx context.Context, request *Reques
 // CallBidiStream calls a bidirectional streaming procedure.
 func (c *Client[Req, Res]) CallBidiStream(ctx context.Context) *BidiStreamForClient[Req, Res] {
 	if c.err != nil {
-		return &BidiStreamForClient[Req, Res]{err: c.err}
+		return &BidiStreamForClient[Req, Res]{err: c.constructionError()}
 	}
 	return &BidiStreamForClient[Req, Res]{conn: c.newConn(ctx, StreamTypeBidi)}
+}
+
+// constructionError is the error NewClient failed with, for one call: callers
+// may attach metadata to the errors they're handed (and Error.Meta allocates
+// lazily), so calls must not share one *Error.
+func (c *Client[Req, Res]) constructionError() error {
+	if connectErr, ok := asError(c.err); ok {
+		return connectErr.clone()
+	}
+	return c.err
 }
 
 func (c *Client[Req, Res]) newConn(ctx context.Context, streamType StreamType) StreamingClientConn {
